@@ -17,6 +17,8 @@ type M = map[string]any
 type Trace struct {
 	// Sync flushes after every event, so that the trace survives a crash of the process.
 	Sync bool
+	// Path is the file the trace is written to.
+	Path string
 	mu   sync.Mutex
 	f    *os.File
 	w    *bufio.Writer
@@ -34,7 +36,7 @@ func NewTrace(path string) (*Trace, error) {
 	if err != nil {
 		return nil, err
 	}
-	return &Trace{f: f, w: bufio.NewWriterSize(f, 1<<20)}, nil
+	return &Trace{f: f, w: bufio.NewWriterSize(f, 1<<20), Path: path}, nil
 }
 
 func (t *Trace) Emit(m M) {
